@@ -3,4 +3,3 @@ CONSTANTS
   MaxDepth = 2
 INVARIANT TemplatesWellFormed
 INVARIANT BreakViolatesItsRule
-INVARIANT EveryRuleCanBeBroken
